@@ -285,6 +285,9 @@ def r_apply(ctx, model):
     ev = Ev(model, {("global", "cij.util:c_"): LibV("cij.c_")}, intr, ctx=ctx)
     symmetry = DictV({"system": "cubic", "ignore_rank": True})
     ev.call_def(f, model.mods["cij.io.traditional.elast_dat"], ref, [data, symmetry], {})
+    ctx.check(dict(symmetry.d) == {"system": "cubic", "ignore_rank": True}, "the caller's symmetry settings are left as they were", w, expected="{'system': 'cubic', 'ignore_rank': True}",
+              found=str({k_: str(v_) for k_, v_ in symmetry.d.items()}), explanation="apply_symetry_on_elast_data changes the settings dictionary it was handed (an entry popped or overwritten): the next table "
+              "filled with the same settings in this process is filled with other relations, or with none", key="apply.settings-untouched")
     # the call is bound against fill_cij's own signature: however the settings are passed (keywords, positions, defaults filled in by hand),
     # every parameter must receive the configured value, or the default of fill_cij where the settings say nothing
     ff = model.func("cij.util.fill:fill_cij")
